@@ -717,6 +717,17 @@ func checkC19(c *Ctx) {
 				{"no-port", func(s string) bool { return s == `Port(u) == ""` }},
 				{"host-empty-or-localhost", func(s string) bool { return s == `Hostname(u) == ""` || s == `Hostname(u) == "localhost"` }},
 			}
+			// the tests may live in a package-level table of predicates walked by a loop that returns at the first one
+			// violated: reaching the open then means every predicate of the table came out false
+			if extra, ok := c19PredicateTable(c, fu, cl); ok {
+				var nd [][]string
+				for _, d := range dnf {
+					for _, e := range extra {
+						nd = append(nd, uniqSorted(append(append([]string{}, d...), e...)))
+					}
+				}
+				dnf = nd
+			}
 			for _, rq := range req {
 				ok, cex := AllDisjunctsHave(dnf, rq.ok)
 				c.Check(ok, "R19.3", name, rq.slot, cl.Pos(), "every way of reaching the open carries the %s test (counter-example path conditions: %v)", rq.slot, cex)
@@ -1579,4 +1590,219 @@ func isNewSink(cl ssa.CallInstruction) bool {
 		}
 	}
 	return true
+}
+
+// c19PredicateTable: fn walks a package-level table (written by the package initialiser only) of entries holding a
+// predicate func(arg) bool, calls the predicate of EVERY entry with one of its own parameters and returns before
+// `after` at the first predicate that holds. The result is the DNF - in fn's terms - of "all predicates false", i.e.
+// what is known where `after` runs.
+func c19PredicateTable(c *Ctx, fn *ssa.Function, after ssa.Instruction) ([][]string, bool) {
+	// the predicate call: a dynamic call of a value loaded from a field of a table element, with a parameter of fn
+	var pcall *ssa.Call
+	var tbl *ssa.Global
+	var argP *ssa.Parameter
+	for _, cl := range Calls(fn) {
+		x, ok := cl.(*ssa.Call)
+		if !ok || x.Call.IsInvoke() || x.Call.StaticCallee() != nil || len(x.Call.Args) != 1 {
+			continue
+		}
+		p, isP := Strip(x.Call.Args[0]).(*ssa.Parameter)
+		if !isP {
+			continue
+		}
+		// value: load of FieldAddr(elem) or Field(elem value), elem from IndexAddr/range over load of a Global
+		v := x.Call.Value
+		var g *ssa.Global
+		for k := 0; k < 10 && v != nil; k++ {
+			switch y := v.(type) {
+			case *ssa.UnOp:
+				if gg, isG := y.X.(*ssa.Global); isG {
+					g = gg
+					v = nil
+				} else {
+					v = y.X
+				}
+			case *ssa.FieldAddr:
+				v = y.X
+			case *ssa.Field:
+				v = y.X
+			case *ssa.IndexAddr:
+				v = y.X
+			case *ssa.Index:
+				v = y.X
+			case *ssa.Extract:
+				v = y.Tuple
+			case *ssa.Next:
+				v = y.Iter
+			case *ssa.Range:
+				v = y.X
+			case *ssa.Alloc:
+				// the loop variable: what is stored into it (one store)
+				v = nil
+				if y.Referrers() != nil {
+					n := 0
+					for _, r := range *y.Referrers() {
+						if st, isSt := r.(*ssa.Store); isSt && st.Addr == ssa.Value(y) {
+							n++
+							v = st.Val
+						}
+					}
+					if n != 1 {
+						v = nil
+					}
+				}
+			default:
+				v = nil
+			}
+		}
+		if g != nil {
+			pcall, tbl, argP = x, g, p
+		}
+	}
+	if pcall == nil || !curProgRoot(fn) || tbl.Pkg == nil {
+		return nil, false
+	}
+	// every element is asked, and `after` runs only once the loop is over
+	hdr := LoopHeader(pcall.Block())
+	if hdr == nil || !hdr.Dominates(after.Block()) || LoopHeader(after.Block()) == hdr {
+		return nil, false
+	}
+	// a range loop over the whole table whose only ways out are its own end and "this predicate holds"
+	isRange := false
+	for _, in := range hdr.Instrs {
+		if ph, ok := in.(*ssa.Phi); ok && ph.Comment == "rangeindex" {
+			isRange = true
+		}
+	}
+	if !isRange {
+		return nil, false
+	}
+	trueBlocks := map[*ssa.BasicBlock]bool{}
+	for _, b := range edgeTrue(pcall) {
+		trueBlocks[b] = true
+	}
+	for _, b := range fn.Blocks {
+		if b == hdr || LoopHeader(b) != hdr {
+			continue
+		}
+		for _, sc := range b.Succs {
+			if sc != hdr && LoopHeader(sc) != hdr && !trueBlocks[sc] {
+				return nil, false // another way out of the loop: not every predicate need have been asked
+			}
+		}
+	}
+	// a predicate that holds leads to a return that does not reach `after`
+	holds := false
+	for _, a := range edgeTrue(pcall) {
+		if WitnessPath(fn, AtBlock(a), func(i ssa.Instruction) bool { return i == after }, nil) == nil {
+			holds = true
+		}
+	}
+	if !holds {
+		return nil, false
+	}
+	// the table is written by the initialiser only; its predicates are the function literals of the initialiser with
+	// the predicate's signature that are stored into it
+	ini := tbl.Pkg.Func("init")
+	if ini == nil {
+		return nil, false
+	}
+	written := 0
+	c.EachRootFunc(func(f *ssa.Function) {
+		AllInstrs(f, func(in ssa.Instruction) {
+			if st, ok := in.(*ssa.Store); ok && st.Addr == ssa.Value(tbl) && f != ini {
+				written++
+			}
+		})
+	})
+	if written > 0 {
+		return nil, false
+	}
+	sig := pcall.Call.Signature()
+	var preds []*ssa.Function
+	AllInstrs(ini, func(in ssa.Instruction) {
+		st, ok := in.(*ssa.Store)
+		if !ok {
+			return
+		}
+		var f *ssa.Function
+		switch y := Strip(st.Val).(type) {
+		case *ssa.Function:
+			f = y
+		case *ssa.MakeClosure:
+			f, _ = y.Fn.(*ssa.Function)
+		}
+		if f == nil || f.Parent() != ini || !types.Identical(f.Signature, sig) && !(f.Signature.Params().Len() == sig.Params().Len() && f.Signature.Results().Len() == 1) {
+			return
+		}
+		// stored into an element of the array the table is made of
+		root := st.Addr
+		for k := 0; k < 6; k++ {
+			switch y := root.(type) {
+			case *ssa.FieldAddr:
+				root = y.X
+				continue
+			case *ssa.IndexAddr:
+				root = y.X
+				continue
+			}
+			break
+		}
+		if root == ssa.Value(tbl) {
+			preds = append(preds, f) // the table is an array: its elements are stored in place
+			return
+		}
+		arr, isA := root.(*ssa.Alloc)
+		if !isA || arr.Referrers() == nil {
+			return
+		}
+		feeds := false
+		for _, r := range *arr.Referrers() {
+			if sl, isSl := r.(*ssa.Slice); isSl && sl.Referrers() != nil {
+				for _, rr := range *sl.Referrers() {
+					if s2, isS := rr.(*ssa.Store); isS && s2.Addr == ssa.Value(tbl) {
+						feeds = true
+					}
+				}
+			}
+		}
+		if feeds {
+			preds = append(preds, f)
+		}
+	})
+	if len(preds) == 0 {
+		return nil, false
+	}
+	out := [][]string{{}}
+	for _, pf := range preds {
+		dnf, ok := boolDNFOf(pf, []ssa.Value{argP}, 0, false, 0)
+		if !ok {
+			return nil, false
+		}
+		var nx [][]string
+		for _, o := range out {
+			for _, d := range dnf {
+				nx = append(nx, uniqSorted(append(append([]string{}, o...), d...)))
+			}
+		}
+		if len(nx) > 64 {
+			return nil, false
+		}
+		out = nx
+	}
+	return out, true
+}
+
+// edgeTrue: the blocks entered when the boolean result of call is found true (the If that tests it directly).
+func edgeTrue(call *ssa.Call) []*ssa.BasicBlock {
+	var out []*ssa.BasicBlock
+	if call.Referrers() == nil {
+		return nil
+	}
+	for _, r := range *call.Referrers() {
+		if iff, ok := r.(*ssa.If); ok && iff.Cond == ssa.Value(call) {
+			out = append(out, iff.Block().Succs[0])
+		}
+	}
+	return out
 }
